@@ -11,7 +11,8 @@ Obligations (stable names) and witness keys
 All witnesses carry the full scenario (enough for ``replay``):
 ``depth, coordsys ('astronomical'|'planetary'), pio_format, format (override or None), scheme,
 kind ('f64'|'f32'|'rgb'|'rgba'), mode ('clobber'|'update'), parallel (list, one per pass),
-passes (list of {leaves: 'all' | [[x,y],...], coef, cap}), seed_tag`` plus the clause-specific keys:
+passes (list of {leaves: 'all' | [[x,y],...], coef, cap, [delay_s: seconds every sampler call sleeps]}), seed_tag``
+plus the clause-specific keys:
 
 * ``rt/sample_layer/runs``            -- the call raised / a worker died / no result
                                          (+ ``error``, ``pass_index``).  depth == 0 lands here on the
@@ -33,7 +34,8 @@ Bounds
 quick   : depths 0..2 x both systems x {npy/f64, fits/f32, fits/f64, png/rgb, png/rgba, jpg/rgb}
           serial, clobber; a covering subset with 2 and 4 workers; depth 3 twice; update mode
           (1-3 passes, random leaf subsets, masked samplers) at depths 1..2 in npy, fits, png;
-          format overrides of equal parity; the LXY naming scheme.
+          format overrides of equal parity; the LXY naming scheme; two slow-sampler scenarios
+          (1.3 s per sampler call, depth 2, 2 workers; clobber and update mode).
 thorough: the full grid depths 0..3 x workers {1,2,4,7}, depth 4 in two configurations, 60 random
           update scenarios (depth <= 3), 24 random clobber scenarios with random coefficients.
 
@@ -104,8 +106,12 @@ def evaluate(kind, coef, cap, u):
     return out, defined, amb
 
 
-def make_sampler(kind, coef, cap):
+def make_sampler(kind, coef, cap, delay_s=0.0):
+    """``delay_s``: every call of the sampler takes that much longer (a slow data source: big HEALPix map, chunked
+    reader, slow disk); the values are the same."""
     def sampler(lon, lat):
+        if delay_s:
+            time.sleep(delay_s)
         cl = np.cos(lat)
         u = np.stack([cl * np.cos(lon), cl * np.sin(lon), np.sin(lat)], axis=-1)
         return evaluate(kind, coef, cap, u)[0]
@@ -175,7 +181,7 @@ def run_scenario(cfg):
     problems = []
 
     for k, ps in enumerate(cfg["passes"]):
-        sampler = make_sampler(kind, ps["coef"], ps["cap"])
+        sampler = make_sampler(kind, ps["coef"], ps["cap"], float(ps.get("delay_s") or 0.0))
         par = cfg["parallel"][k]
         try:
             if cfg["mode"] == "clobber":
@@ -408,6 +414,7 @@ def build_scenarios(ctx):
             depth = 1 + (n % 2)
             sc.append(update_cfg(rng, depth, cs2[n % 2], pf, kind, [(1, 2, 4)[n % 3], 1], 1 + n % 3, tag="u%d" % n))
         sc.append(update_cfg(rng, 0, "astronomical", "npy", "f64", [1], 1, tag="u-depth0"))
+        sc.extend(slow_sampler_cfgs(False))
     else:
         for depth in (0, 1, 2, 3):
             for cs in cs2:
@@ -435,7 +442,30 @@ def build_scenarios(ctx):
                                  [rng.choice([1, 2, 4]), rng.choice([1, 3])], rng.randint(1, 3),
                                  scheme=("LXY" if n % 5 == 2 else "L/Y/YX"), tag="u%d" % n))
         sc.append(update_cfg(rng, 0, "planetary", "fits", "f32", [1], 1, tag="u-depth0"))
+        sc.extend(slow_sampler_cfgs(True))
     return sc
+
+
+SLOW_S = 1.3
+
+
+def slow_sampler_cfgs(thorough):
+    """'The result does not depend on the number of worker processes' with a sampler that needs 1.3 s per tile (longer than
+    the 1 s time-outs of the stage's hand-off) and more tiles (16 at depth 2) than workers + queue slots: the dispatcher's
+    queue stays full for more than a second at a time.  Clobber mode (sample_layer) and update mode
+    (sample_layer_filtered, all leaves), 2 workers (thorough: also 3 workers and 5 workers at depth 3)."""
+    def slow(cfg):
+        for ps in cfg["passes"]:
+            ps["delay_s"] = SLOW_S
+        return cfg
+    out = [slow(clobber_cfg(2, "astronomical", "npy", "f64", 2, tag="slow-sampler")),
+           slow({"depth": 2, "coordsys": "planetary", "pio_format": "fits", "format": None, "scheme": "L/Y/YX", "kind": "f32", "mode": "update",
+                 "parallel": [2], "passes": [{"leaves": "all", "coef": FIXED_COEF, "cap": {"dir": [0.0, 0.6, 0.8], "thr": 0.5}}],
+                 "seed_tag": "slow-sampler-update"})]
+    if thorough:
+        out.append(slow(clobber_cfg(2, "planetary", "png", "rgb", 3, tag="slow-sampler")))
+        out.append(slow(clobber_cfg(3, "astronomical", "fits", "f64", 5, tag="slow-sampler")))
+    return out
 
 
 # ---------------------------------------------------------------------------------------------
@@ -516,6 +546,10 @@ def run(ctx):
     ctx.bound("update mode: 1..3 passes of sample_layer_filtered with random ancestor-closed leaf subsets and samplers "
               "masked on a random spherical cap; clobber mode: sample_layer (one scenario with two passes)")
     ctx.bound("format= override only between formats of equal vertical parity (png<->npy)")
+    n_slow = len([c for c in scenarios if any(ps.get("delay_s") for ps in c["passes"])])
+    ctx.bound("slow sampler: %d scenarios in which every sampler call takes %.1f s (longer than the 1 s time-outs of the worker hand-off), "
+              "depth 2 (16 tiles > workers + 2*workers queue slots) with 2 workers, sample_layer and sample_layer_filtered%s"
+              % (n_slow, SLOW_S, "; 3 workers; depth 3 with 5 workers" if ctx.thorough else ""))
     ctx.assume("numpy .npy / astropy FITS / PIL PNG codecs read back what was written; JPEG compared coarsely")
     ctx.assume("rt.c06_geom (unit-vector construction of the TOAST grid from its description) defines the pixel centres; "
                "agreement with toasty's own lon/lat grid is not assumed but observed (tolerance 1e-9)")
